@@ -27,8 +27,8 @@ theorem take_succ_ne_nil (ds : List Byte) (n : Nat) (h : ds ≠ []) : ds.take (n
   | cons a t => simp
 
 /-- the `%G` layout of a non-empty digit string has the shape of law L2 -/
-theorem fmtDigits_shape (sg ds : List Byte) (x : Int) (hsg : sg = [] ∨ sg = [45]) (hne : ds ≠ []) (hds : ds.all isDigit = true) :
-    G15Shape (Dbl.fmtDigits sg ds x) := by
+theorem fmtDigits_shape (p : Nat) (sg ds : List Byte) (x : Int) (hsg : sg = [] ∨ sg = [45]) (hne : ds ≠ []) (hds : ds.all isDigit = true) :
+    G15Shape (Dbl.fmtDigits p sg ds x) := by
   unfold Dbl.fmtDigits
   split
   · -- scientific style
@@ -64,17 +64,49 @@ theorem fmtDigits_shape (sg ds : List Byte) (x : Int) (hsg : sg = [] ∨ sg = [4
       · rw [List.all_append]
         simp [hds, isDigit]
 
-/-- law L2 for `dblOps`: `%.15G` of every finite double (biased exponent ≠ 2047: not INF/NAN) has the shape `G15Shape` -/
-theorem dbl_fmtG15_shape (bits : Nat) (hfin : (bits / Dbl.pow2 52 % 2048 == 2047) = false) : G15Shape (Dbl.fmtG15 bits) := by
-  have hsg : ∀ (p : Prop) [Decidable p], ((if p then [45] else []) : List Byte) = [] ∨ ((if p then [45] else []) : List Byte) = [45] := by
-    intro p _; by_cases h : p <;> simp [h]
-  unfold Dbl.fmtG15
+/-- law L2 for the float model at every precision: `%.<p>G` of every finite double (biased exponent ≠ 2047: not INF/NAN) has
+    the shape `G15Shape` -/
+theorem dbl_fmtG_shape (p : Nat) (bits : Nat) (hfin : (bits / Dbl.pow2 52 % 2048 == 2047) = false) : G15Shape (Dbl.fmtG p bits) := by
+  have hsg : ∀ (q : Prop) [Decidable q], ((if q then [45] else []) : List Byte) = [] ∨ ((if q then [45] else []) : List Byte) = [45] := by
+    intro q _; by_cases h : q <;> simp [h]
+  unfold Dbl.fmtG
   simp only [hfin, Bool.false_eq_true, if_false]
   split
   · exact ⟨(if bits / Dbl.signBit % 2 = 1 then [45] else []), [48], [], none, by simp [exText], hsg _, by simp, by decide, Or.inl rfl, trivial⟩
   · unfold Dbl.fmtFinite
     simp only []
-    obtain ⟨_, e2, e1⟩ := toDigits_spec (Dbl.sig15 _ _).1
-    exact fmtDigits_shape _ _ _ (hsg _) e1 e2
+    obtain ⟨_, e2, e1⟩ := toDigits_spec (Dbl.sigDigits p _ _).1
+    exact fmtDigits_shape p _ _ _ (hsg _) e1 e2
+
+/-- law L2 for `dblOps` -/
+theorem dbl_fmtG15_shape (bits : Nat) (hfin : (bits / Dbl.pow2 52 % 2048 == 2047) = false) : G15Shape (Dbl.fmtG15 bits) :=
+  dbl_fmtG_shape 15 bits hfin
+
+/-- … and for the text the repaired `WriteReal` chooses (`dblOpsRT`) -/
+theorem dbl_fmtShortest_shape (bits : Nat) (hfin : (bits / Dbl.pow2 52 % 2048 == 2047) = false) : G15Shape (Dbl.fmtShortest bits) := by
+  unfold Dbl.fmtShortest
+  split
+  · exact dbl_fmtG_shape 15 bits hfin
+  · split
+    · exact dbl_fmtG_shape 16 bits hfin
+    · exact dbl_fmtG_shape 17 bits hfin
+
+/-- the repaired `WriteReal` writes a text that converts back to the value — by construction when 15 or 16 digits do, and
+    under the one numeric fact that 17 significant digits determine every double (`h17`, a hypothesis: validated against the
+    platform for every double the check writes) otherwise -/
+theorem dbl_fmtShortest_stable (bits : Nat) (h17 : Dbl.readsBack (Dbl.fmtG 17 bits) bits = true) :
+    ∃ dec, parseFloatText (Dbl.fmtShortest bits) = some dec ∧ Dbl.ofDecimal dec = some bits := by
+  have key : ∀ t, Dbl.readsBack t bits = true → ∃ dec, parseFloatText t = some dec ∧ Dbl.ofDecimal dec = some bits := by
+    intro t ht
+    unfold Dbl.readsBack at ht
+    cases hp : parseFloatText t with
+    | none => rw [hp] at ht; cases ht
+    | some d => rw [hp] at ht; exact ⟨d, rfl, by simpa using ht⟩
+  unfold Dbl.fmtShortest
+  split
+  · rename_i h; exact key _ h
+  · split
+    · rename_i h; exact key _ h
+    · exact key _ h17
 
 end StepModel.P21.Lemmas
